@@ -47,6 +47,22 @@ def run(sc):
         addr = server.addr
     w = None
     try:
+        # enqueue, close() and read WITHOUT waiting for the end: the child is still working, its results and its end marker are still to come
+        w0 = make(kind, T.slow_square, [0], {}, addr)
+        try:
+            for x in (1, 2, 0, 5):
+                w0.enqueue(x)
+            w0.close()
+            early = list(w0.results_iter())
+            obs['read_after_close'] = early
+            if early != [1, 4, 0, 25]:
+                viol.append(f'enqueue 1, 2, 0, 5; close(); list(results_iter()) while the child is still working delivered {early!r} instead of [1, 4, 0, 25]: '
+                            f'the stream was reported as ended before its end marker')
+        finally:
+            try:
+                w0.terminate(timeout=1)
+            except Exception:
+                pass
         w = make(kind, T.record, defaults, dkw, addr)
         got = []
         for a, k in inputs:
